@@ -192,9 +192,16 @@ func (sc *StateCache) Get(key, blockHash string) (Value, bool) {
 
 		// // save into current block cache when it's 20 rounds behind
 		// if count >= 20 {
-		// memoise in the key's existing versions map: replacing the map would
-		// drop the entries other blocks committed for this key
-		bvs.Add(oldBlockHash, v)
+		// The queried block may have been committed while this lookup walked its
+		// ancestors (a commit publishes the block's link after its keys): the
+		// block's own entry wins, and the memo must never overwrite it.
+		// Memoise in the key's existing versions map: replacing the map would
+		// drop the entries other blocks committed for this key.
+		if own, ok := bvs.Get(oldBlockHash); ok {
+			v = own.(valueNode)
+		} else {
+			bvs.ContainsOrAdd(oldBlockHash, v)
+		}
 		// logging.Logger.Debug("state cache - migrate from previous block",
 		// 	zap.String("key", key),
 		// 	zap.Int("depth", count))
